@@ -183,13 +183,16 @@ def parse_kani(out):
         r["verdict"] = "FAILED"
     for m in CHECK_RE.finditer(out):
         num, name, status, desc, loc = m.groups()
+        desc = desc.strip('"')
         if ".cover." in name or desc.startswith("cover condition"):
             r["covers"].append({"name": name, "status": status, "desc": desc})
             continue
         r["n_checks"] += 1
-        if status not in ("SUCCESS", "UNREACHABLE"):
+        if status in ("FAILURE", "ERROR"):
             r["n_failed"] += 1
             r["failed"].append({"name": name, "status": status, "desc": desc, "loc": loc or ""})
+        elif status == "UNDETERMINED":
+            r["n_undetermined"] = r.get("n_undetermined", 0) + 1
     m = re.search(r"size of program expression: (\d+) steps", out)
     if m:
         r["steps"] = int(m.group(1))
@@ -257,14 +260,19 @@ def run_job(job, tier):
     r = parse_kani(out)
     r.update({"h": job["h"], "wall_s": round(dt, 1), "rc": rc, "killed": killed, "log": logfile,
               "unwindset": resolve_unwindset(job)[1]})
-    if killed or r["verdict"] is None:
+    crashed = ("Out of memory" in out or "CBMC failed with status" in out or "std::bad_alloc" in out)
+    if killed or r["verdict"] is None or crashed:
         r["state"] = "inconclusive"
         why = killed or "no verdict"
-        if "std::bad_alloc" in out or "out of memory" in out.lower() or "Cannot allocate" in out:
+        if crashed or "out of memory" in out.lower() or "Cannot allocate" in out:
             why = "out of memory (ulimit %d GB)" % mem
         if "error: could not compile" in out or "error[E" in out:
             why = "build error"
         r["why"] = why
+    elif any(f["status"] == "ERROR" for f in r["failed"]):
+        # CBMC reports Status: ERROR when the solver itself failed (in practice: memory limit)
+        r["state"] = "inconclusive"
+        r["why"] = "solver error (memory limit %d GB?)" % mem
     elif r["verdict"] == "SUCCESSFUL":
         bad = [c for c in r["covers"] if c["status"] != "SATISFIED"]
         if bad:
@@ -321,9 +329,11 @@ def playback_values(job, tier):
         t = t.get(tier, 900)
     rc, out, dt, killed = run_limited(cmd, KANI_DIR, t * 2, job.get("mem", 8) + 4, logfile)
     tests = []
-    for m in re.finditer(r"let concrete_vals: Vec<Vec<u8>> = vec!\[(.*?)\n\s*\];", out, re.S):
+    for m in re.finditer(r"/// Check for `(\w+)`: (.*?)\n.*?let concrete_vals: Vec<Vec<u8>> = vec!\[(.*?)\n\s*\];", out, re.S):
+        if m.group(1) == "cover":
+            continue
         vals = []
-        for vm in re.finditer(r"vec!\[([0-9, ]*)\]", m.group(1)):
+        for vm in re.finditer(r"vec!\[([0-9, ]*)\]", m.group(3)):
             nums = [int(x) for x in vm.group(1).replace(" ", "").split(",") if x]
             vals.append("".join("%02x" % n for n in nums))
         tests.append(vals)
@@ -346,7 +356,7 @@ def native_run(harness, values_path, profile, realize=None, timeout=120):
     if realize is not None:
         env["VERIF_REALIZE"] = str(realize)
     cmd = ["cargo", "test"] + (["--release"] if profile == "release" else []) + \
-          ["--lib", "--", "harness::" + harness, "--exact", "--test-threads", "1"]
+          ["--lib", "--", harness, "--exact", "--test-threads", "1"]
     try:
         rc, out = sh(cmd, cwd=REPLAY_DIR, timeout=timeout, env=env)
     except subprocess.TimeoutExpired:
@@ -522,7 +532,7 @@ def run_property(prop, tier, seed, only=None, njobs=None):
     if need_replay:
         ok, bout = build_replay()
         if not ok:
-            log("native replay crate failed to build:\n" + bout[-3000:])
+            log("native replay crate failed to build:\n" + "\n".join(l for l in bout.splitlines() if l.startswith("error") or "-->" in l)[-3000:])
         for j, r, unlisted in need_replay:
             if j["kind"] == "smt":
                 # Engine B replays its own models natively (smtengine); result recorded in r
